@@ -284,6 +284,102 @@ def run_isolated(fn, *args, timeout=180):
     return val
 
 
+class PristineServer:
+    """
+    A process forked at the very start of a run (before the run has used pane at all) that serves
+    "what would this call give in a process with no history?" requests: for each request it forks a
+    worker from its own pristine image, the worker evaluates handler(request) and answers.  The server
+    itself never executes anything but fork/wait, so every worker starts from the same pristine state.
+    """
+
+    def __init__(self, handler, timeout=60):
+        import pickle
+        self._pickle = pickle
+        req_r, req_w = os.pipe()
+        resp_r, resp_w = os.pipe()
+        sys.stdout.flush()
+        sys.stderr.flush()
+        pid = os.fork()
+        if pid == 0:
+            code = 0
+            try:
+                os.close(req_w)
+                os.close(resp_r)
+                import signal
+                signal.signal(signal.SIGALRM, signal.SIG_DFL)
+                rf = os.fdopen(req_r, 'rb')
+                while True:
+                    hdr = rf.read(8)
+                    if len(hdr) < 8:
+                        break
+                    n = int.from_bytes(hdr, 'big')
+                    body = rf.read(n)
+                    wpid = os.fork()
+                    if wpid == 0:
+                        wc = 0
+                        try:
+                            signal.alarm(int(timeout))
+                            try:
+                                out = ('ok', handler(pickle.loads(body)))
+                            except BaseException:  # noqa
+                                out = ('err', traceback.format_exc())
+                            data = pickle.dumps(out)
+                            os.write(resp_w, len(data).to_bytes(8, 'big'))
+                            view = memoryview(data)
+                            while len(view):
+                                k = os.write(resp_w, view)
+                                view = view[k:]
+                        except BaseException:  # noqa
+                            wc = 3
+                        finally:
+                            os._exit(wc)
+                    _, status = os.waitpid(wpid, 0)
+                    if status != 0:
+                        data = pickle.dumps(('err', f'pristine worker died, wait status {status}'))
+                        os.write(resp_w, len(data).to_bytes(8, 'big') + data)
+            except BaseException:  # noqa
+                code = 3
+            finally:
+                os._exit(code)
+        os.close(req_r)
+        os.close(resp_w)
+        self.pid = pid
+        self.req_w = req_w
+        self.resp_f = os.fdopen(resp_r, 'rb')
+        self.calls = 0
+
+    def call(self, req):
+        data = self._pickle.dumps(req)
+        os.write(self.req_w, len(data).to_bytes(8, 'big'))
+        view = memoryview(data)
+        while len(view):
+            k = os.write(self.req_w, view)
+            view = view[k:]
+        hdr = self.resp_f.read(8)
+        if len(hdr) < 8:
+            raise HarnessError("pristine oracle server went away")
+        body = self.resp_f.read(int.from_bytes(hdr, 'big'))
+        kind, val = self._pickle.loads(body)
+        self.calls += 1
+        if kind == 'err':
+            raise HarnessError("pristine oracle worker failed:\n" + str(val))
+        return val
+
+    def close(self):
+        try:
+            os.close(self.req_w)
+        except OSError:
+            pass
+        try:
+            self.resp_f.close()
+        except OSError:
+            pass
+        try:
+            os.waitpid(self.pid, 0)
+        except ChildProcessError:
+            pass
+
+
 # ---------------------------------------------------------------------------------------------
 # evidence
 
